@@ -52,10 +52,10 @@ REQUIRED_REACH = [
 ]
 
 POOL_TABLE = "58=x\n59=y\n5A=z\n5B5C=w\n7100=A\n72=B\n"
-PROBE_TABLE = "41=A\n42=B\n43=C\n44=D\n"
+PROBE_TABLE = "41=A\n42=B\n43=C\n44=D\nE9=\u00e9\n8140=\u3042\n"
 
 
-TEXT_POOL = ["AB", "ABC", "A", "xyzw", "ABxyzwCD", "BA"]
+TEXT_POOL = ["AB", "ABC", "A", "xyzw", "ABxyzwCD", "BA", "A\u00e9B", "\u3042A"]
 
 
 def pool_prelude(rng: random.Random, prefix: str) -> list[progen.Node]:
@@ -105,6 +105,10 @@ NEGATIVE_FORMS = [
     ("forvar", ".db pool_i"),
     ("cli_define", ".db DEF0"),
     ("incbin_label", ".dw shared_bin__size"),
+    # sensitive to interpreter-wide settings an earlier assembly may have changed (recursion limit):
+    # 300 levels fail alone with RecursionError, 150 levels succeed alone
+    ("deep_recursion_fails_alone", ".macro deep_zq(n) {\n    .if n {\n        deep_zq(n - 1)\n    }\n    .db 1\n}\ndeep_zq(300)"),
+    ("deep_recursion_passes_alone", ".macro deep2_zq(n) {\n    .if n {\n        deep2_zq(n - 1)\n    }\n    .db 2\n}\ndeep2_zq(150)"),
 ]
 
 
@@ -121,7 +125,7 @@ def gen_history_program(rng: random.Random, idx: int) -> dict[str, Any]:
     defines: list[tuple[str, str]] = []
     if "defines" in feats:
         defines = [("DEF0", "0x12"), ("DEF1", rng.choice(["0", "1"])), ("DEF2", "2")][: rng.randrange(1, 4)]
-    prog = progen.gen_program(rng, mapping, feats, defines, size=rng.choice([4, 8, 12]), prefix=prefix)
+    prog = progen.gen_program(rng, mapping, feats, defines, size=rng.choice([4, 8, 12]) if rng.random() < 0.93 else rng.choice([200, 500, 900]), prefix=prefix)
     pool = pool_prelude(rng, prefix) if rng.random() < 0.7 else []
     if pool:
         # after the first *= (and after any .map lines)
@@ -188,7 +192,7 @@ def gen_probe(rng: random.Random) -> dict[str, Any]:
 SHARED_V = {
     "shared.s": [b".db 1, 2, 3\nshared_l1:\n", b".db 9\nnop\nshared_l2:\n.dw 0x1234\n", b"inx\n", b".db 1,\n?\n", b"lda.q #1\n", b"{\nnop\n"],
     "shared.bin": [b"\x01\x02\x03\x04", b"\xff" * 9, b"\x00"],
-    "shared.tbl": [b"41=A\n42=B\n43=C\n", b"61=A\n62=B\n", b"4100=A\n4200=B\n43=C\n"],
+    "shared.tbl": [b"41=A\n42=B\n43=C\n", b"61=A\n62=B\n", b"4100=A\n4200=B\n43=C\n", b"41=A\n82A0=\x82\xa0\n42=B\n", "41=A\n42=B\nE9=\u00e9\n".encode("utf-8"), "41=A\nE9=\u00e9\n".encode("latin-1")],
 }
 
 
@@ -250,7 +254,7 @@ def gen_case(cseed: int, tier: str) -> dict[str, Any]:
         if kind == "fail":
             slots = list(progen.iter_slots(prog))
             klass = f.choice(sorted(ERROR_CLASSES))
-            if (klass == "unmapped_bank" and not prog.unmapped_addr) or (klass in ("run_off_mapped_rom", "address_beyond_24_bits") and "map" in prog.features):
+            if (klass == "unmapped_bank" and not prog.unmapped_addr) or (klass in ("run_off_mapped_rom", "address_beyond_24_bits", "branch_64k_away") and "map" in prog.features):
                 klass = "undefined_symbol_operand"
             ok = [s for s in slots if applicable(klass, s)]
             if ok:
@@ -295,7 +299,7 @@ def gen_case(cseed: int, tier: str) -> dict[str, Any]:
         slots = [s for s in progen.iter_slots(pprog)]
         klass = f.choice(sorted(ERROR_CLASSES))
         ok = [s for s in slots if applicable(klass, s)]
-        if ok and not (klass == "unmapped_bank" and not pprog.unmapped_addr) and not (klass in ("run_off_mapped_rom", "address_beyond_24_bits") and "map" in pprog.features):
+        if ok and not (klass == "unmapped_bank" and not pprog.unmapped_addr) and not (klass in ("run_off_mapped_rom", "address_beyond_24_bits", "branch_64k_away") and "map" in pprog.features):
             pprog = progen.insert_at(pprog, f.choice(ok), error_node(klass, pprog))
             probe["fails_by"] = klass
     if w.random() < 0.12 and pprog.mapping == "low" and not probe.get("fails_by") and "map" not in pprog.features:
